@@ -301,4 +301,188 @@ theorem updateLoop_wire (thr off : Nat) (data : Bytes) : ∀ (rs : List SRec) (p
       rwa [show p + (wireName r.owner).length + 2 + 2 + 4 + 2 = p + (wireName r.owner).length + 10 by omega] at this
     exact updateLoop_wire thr off data rs _ rest hat6 (fun x hx => hl x (List.mem_cons_of_mem _ hx))
 
+/-! ### the constructor's walk and `queries` -/
+
+theorem SQuery.wire_eq (q : SQuery) : q.wire = wireName q.name ++ (be16 q.type ++ be16 q.cls) := by
+  simp only [SQuery.wire, List.append_assoc]
+
+theorem SQuery.wire_length (q : SQuery) : q.wire.length = (wireName q.name).length + 4 := by
+  rw [SQuery.wire_eq]; simp only [List.length_append, be16_length]
+
+theorem SQuery.legal_facts {q : SQuery} (h : q.legal = true) :
+    LabelsOk q.name ∧ (wireName q.name).length ≤ 255 ∧ q.type < 65536 ∧ q.cls < 65536 := by
+  simp only [SQuery.legal, Bool.and_eq_true, decide_eq_true_eq] at h
+  obtain ⟨⟨h1, h2⟩, h3⟩ := h
+  have := (legalName_iff _).1 h1
+  exact ⟨this.1, this.2, h2, h3⟩
+
+theorem wireQs_cons (q : SQuery) (qs : List SQuery) : wireQs (q :: qs) = q.wire ++ wireQs qs := by
+  simp only [wireQs, List.flatMap_cons]
+
+theorem wireQs_append (a b : List SQuery) : wireQs (a ++ b) = wireQs a ++ wireQs b := by
+  simp only [wireQs, List.flatMap_append]
+
+@[simp] theorem wireQs_nil : wireQs [] = [] := rfl
+
+theorem wireQs_length_ge (qs : List SQuery) : qs.length ≤ (wireQs qs).length := by
+  induction qs with
+  | nil => simp
+  | cons q r ih => rw [wireQs_cons, List.length_append, SQuery.wire_length, List.length_cons]; omega
+
+theorem skipQuestions_wire (buf : Bytes) : ∀ (qs : List SQuery) (s : Stream) (rest : Bytes),
+    At buf s.pos (wireQs qs ++ rest) → (∀ q ∈ qs, q.legal = true) → (wireQs qs).length ≤ s.rem →
+    skipQuestions buf qs.length s = ok ⟨s.pos + (wireQs qs).length, s.rem - (wireQs qs).length⟩
+  | [], s, _, _, _, _ => by simp [skipQuestions]
+  | q :: qs, s, rest, hat, hl, hr => by
+    obtain ⟨hok, hwl, ht, hc⟩ := SQuery.legal_facts (hl q List.mem_cons_self)
+    rw [wireQs_cons, List.append_assoc, SQuery.wire_eq] at hat
+    simp only [List.append_assoc] at hat
+    rw [wireQs_cons, List.length_append, SQuery.wire_length] at hr
+    have hf := wireName_length_pos q.name
+    simp only [List.length_cons]
+    unfold skipQuestions
+    rw [skipDname_wire buf q.name s.rem s hat.left hok (by omega) (by omega)]
+    simp only [Out.ok_bind]
+    unfold Stream.skip
+    dsimp only
+    rw [if_neg (by omega)]
+    simp only [Out.ok_bind]
+    have hat2 : At buf (s.pos + (wireName q.name).length + 4) (wireQs qs ++ rest) := by
+      have := hat.right.right.right
+      simpa only [be16_length, Nat.add_assoc] using this
+    rw [skipQuestions_wire buf qs ⟨s.pos + (wireName q.name).length + 4, s.rem - (wireName q.name).length - 4⟩ rest hat2
+      (fun x hx => hl x (List.mem_cons_of_mem _ hx)) (by dsimp only; omega)]
+    rw [wireQs_cons, List.length_append, SQuery.wire_length]
+    dsimp only
+    congr 2 <;> omega
+
+theorem skipSection_wire (buf : Bytes) : ∀ (rs : List SRec) (s : Stream) (rest : Bytes),
+    At buf s.pos (wireRecs rs ++ rest) → (∀ r ∈ rs, r.legal = true) → (wireRecs rs).length ≤ s.rem →
+    skipSection buf rs.length s = ok ⟨s.pos + (wireRecs rs).length, s.rem - (wireRecs rs).length⟩
+  | [], s, _, _, _, _ => by simp [skipSection]
+  | r :: rs, s, rest, hat, hl, hr => by
+    obtain ⟨hok, hwl, ht, hc, httl, hd⟩ := SRec.legal_facts (hl r List.mem_cons_self)
+    have hdl := SData.wire_lt hd
+    rw [wireRecs_cons, List.append_assoc, SRec.wire_eq] at hat
+    simp only [List.append_assoc] at hat
+    rw [wireRecs_cons, List.length_append, SRec.wire_length] at hr
+    have hf := wireName_length_pos r.owner
+    simp only [List.length_cons]
+    unfold skipSection
+    rw [skipDname_wire buf r.owner s.rem s hat.left hok (by omega) (by omega)]
+    simp only [Out.ok_bind]
+    unfold Stream.skip
+    dsimp only
+    rw [if_neg (by omega)]
+    simp only [Out.ok_bind]
+    have hat4 : At buf (s.pos + (wireName r.owner).length + 8) (be16 r.data.wire.length ++ (r.data.wire ++ (wireRecs rs ++ rest))) := by
+      have := hat.right.right.right.right
+      simpa only [be16_length, be32_length, Nat.add_assoc] using this
+    rw [At.readBE16_eq (s := ⟨s.pos + (wireName r.owner).length + 8, s.rem - (wireName r.owner).length - 8⟩) hat4 hdl
+      (by dsimp only; omega)]
+    simp only [Out.ok_bind]
+    rw [if_neg (by omega), if_neg (by omega)]
+    simp only [Out.ok_bind]
+    have hat6 : At buf (s.pos + (wireName r.owner).length + 8 + 2 + r.data.wire.length) (wireRecs rs ++ rest) := by
+      have := hat4.right.right
+      simpa only [be16_length] using this
+    rw [skipSection_wire buf rs _ rest hat6 (fun x hx => hl x (List.mem_cons_of_mem _ hx)) (by dsimp only; omega)]
+    rw [wireRecs_cons, List.length_append, SRec.wire_length]
+    dsimp only
+    congr 2 <;> omega
+
+/-- the question's type / class are values of the enums `QueryType` / `QueryClass` (see KF-C10-1) -/
+def SQuery.inEnumRange (q : SQuery) : Bool := decide (q.type < 64) && decide (q.cls < 256)
+
+theorem queriesLoop_wire (recs : Bytes) : ∀ (qs : List SQuery) (f : Nat) (s : Stream) (rest : Bytes),
+    At recs s.pos (wireQs qs ++ rest) → (∀ q ∈ qs, q.legal = true ∧ q.inEnumRange = true) →
+    s.rem = (wireQs qs).length → qs.length ≤ f →
+    queriesLoop recs f s = ok (qs.map SQuery.view)
+  | [], 0, _, _, _, _, _, _ => rfl
+  | [], f + 1, s, _, _, _, hr, _ => by
+    unfold queriesLoop
+    rw [if_pos (by simpa using hr)]
+    rfl
+  | q :: qs, 0, _, _, _, _, _, hf => by simp at hf
+  | q :: qs, f + 1, s, rest, hat, hl, hr, hf => by
+    obtain ⟨hq, he⟩ := hl q List.mem_cons_self
+    obtain ⟨hok, hwl, ht, hc⟩ := SQuery.legal_facts hq
+    simp only [SQuery.inEnumRange, Bool.and_eq_true, decide_eq_true_eq] at he
+    rw [wireQs_cons, List.append_assoc, SQuery.wire_eq] at hat
+    simp only [List.append_assoc] at hat
+    rw [wireQs_cons, List.length_append, SQuery.wire_length] at hr
+    unfold queriesLoop
+    rw [if_neg (by omega), composeSkip_wire hat hok hwl (by omega)]
+    simp only [Out.ok_bind]
+    have hat1 := hat.right
+    rw [At.readBE16_eq (s := ⟨s.pos + (wireName q.name).length, s.rem - (wireName q.name).length⟩) hat1 ht
+      (by dsimp only; omega)]
+    simp only [Out.ok_bind]
+    have hat2 := hat1.right
+    rw [At.readBE16_eq (s := ⟨s.pos + (wireName q.name).length + 2, s.rem - (wireName q.name).length - 2⟩) hat2 hc
+      (by dsimp only; omega)]
+    simp only [Out.ok_bind]
+    unfold enumLoad
+    rw [if_pos he]
+    simp only [Out.ok_bind]
+    have hat3 := hat2.right
+    simp only [be16_length] at hat3
+    rw [queriesLoop_wire recs qs f _ rest hat3 (fun x hx => hl x (List.mem_cons_of_mem _ hx)) (by dsimp only; omega)
+      (by simp only [List.length_cons] at hf; omega)]
+    simp only [Out.ok_bind, List.map_cons, cstr_textOf hok]
+    rfl
+
+/-! ### what `add_record` writes for a legal record is its reference encoding -/
+
+theorem recordBytes_toNew {r : SRec} (hl : r.legal = true) (txt : Bytes) : recordBytes (r.toNew txt) = ok r.wire := by
+  obtain ⟨hok, hwl, ht, hc, httl, hd⟩ := SRec.legal_facts hl
+  cases r with
+  | mk o t c ttl d =>
+    dsimp only at hok hwl ht hc httl hd
+    cases d with
+    | a addr =>
+      simp only [SData.legal, Bool.and_eq_true, beq_iff_eq] at hd
+      obtain ⟨h1, h2⟩ := hd
+      subst h1
+      simp [recordBytes, recordPayload, SRec.toNew, SRec.wire, SData.wire, encode_textOf hok, tA, tMX, h2]
+    | aaaa addr =>
+      simp only [SData.legal, Bool.and_eq_true, beq_iff_eq] at hd
+      obtain ⟨h1, h2⟩ := hd
+      subst h1
+      simp [recordBytes, recordPayload, SRec.toNew, SRec.wire, SData.wire, encode_textOf hok, tA, tAAAA, tMX, h2]
+    | name n =>
+      simp only [SData.legal, Bool.and_eq_true, Bool.or_eq_true, beq_iff_eq] at hd
+      obtain ⟨h1, hn⟩ := hd
+      obtain ⟨hokn, hwln⟩ := wireName_le_of_legal hn
+      have hm : (wireName n).length % 65536 = (wireName n).length := Nat.mod_eq_of_lt (by omega)
+      rcases h1 with ((h1 | h1) | h1) | h1 <;> subst h1 <;>
+        simp [recordBytes, recordPayload, SRec.toNew, SRec.wire, SData.wire, encode_textOf hok, encode_textOf hokn,
+          containsDname, tA, tAAAA, tMX, tNS, tCNAME, tPTR, tDNAM, hm]
+    | mx pf n =>
+      simp only [SData.legal, Bool.and_eq_true, beq_iff_eq, decide_eq_true_eq] at hd
+      obtain ⟨⟨h1, hp⟩, hn⟩ := hd
+      obtain ⟨hokn, hwln⟩ := wireName_le_of_legal hn
+      subst h1
+      have hm : ((wireName n).length + 2) % 65536 = 2 + (wireName n).length := by
+        rw [Nat.mod_eq_of_lt (by omega)]; omega
+      simp [recordBytes, recordPayload, SRec.toNew, SRec.wire, SData.wire, encode_textOf hok, encode_textOf hokn,
+        containsDname, tA, tAAAA, tMX, hm]
+    | soa m rn tail =>
+      simp only [SData.legal, Bool.and_eq_true, beq_iff_eq] at hd
+      obtain ⟨⟨⟨h1, hm⟩, hrn⟩, htl⟩ := hd
+      have h1' := (wireName_le_of_legal hm).2
+      have h2' := (wireName_le_of_legal hrn).2
+      subst h1
+      have hmod : ((wireName m).length + ((wireName rn).length + tail.length)) % 65536 =
+          (wireName m).length + ((wireName rn).length + tail.length) := Nat.mod_eq_of_lt (by omega)
+      simp [recordBytes, recordPayload, SRec.toNew, SRec.wire, SData.wire, encode_textOf hok,
+        containsDname, tA, tAAAA, tMX, tNS, tCNAME, tPTR, tDNAM, tSOA, hmod]
+    | raw b =>
+      simp only [SData.legal, Bool.and_eq_true, Bool.not_eq_true', Bool.or_eq_false_iff, beq_eq_false_iff_ne,
+        decide_eq_true_eq] at hd
+      obtain ⟨⟨⟨⟨⟨⟨⟨⟨h1, h2⟩, h3⟩, h4⟩, h5⟩, h6⟩, h7⟩, h8⟩, hb⟩ := hd
+      have hmod : b.length % 65536 = b.length := Nat.mod_eq_of_lt hb
+      simp [recordBytes, recordPayload, SRec.toNew, SRec.wire, SData.wire, encode_textOf hok,
+        containsDname, h1, h2, h3, h4, h5, h6, h7, h8, hmod]
+
 end Tins.Dns
